@@ -26,6 +26,11 @@ class Obj:
         return self._b
 
 
+PY_OBJECTS = {'True': True, 'False': False, '1.5': 1.5, '0.0': 0.0, '(1, 2)': (1, 2), '()': (), "b'x'": b'x', "b''": b'', 'set()': set(), '{3}': {3},
+              "('a', ['b'])": ('a', ['b']), 'range(0, 2)': range(0, 2), '-7': -7, '(1+2j)': (1 + 2j), 'frozenset()': frozenset()}
+assert all(str(v) == k for k, v in PY_OBJECTS.items())
+
+
 def build(c):
     t = c[0]
     if t == 'n':
@@ -33,6 +38,8 @@ def build(c):
     if t == 's':
         return c[1]
     if t == 'o':
+        if c[1] in PY_OBJECTS and bool(PY_OBJECTS[c[1]]) == bool(c[2]):
+            return PY_OBJECTS[c[1]]
         if c[1].isdigit() and str(int(c[1])) == c[1] and (int(c[1]) != 0) == bool(c[2]):
             return int(c[1])
         return Obj(c[1], bool(c[2]))
@@ -59,6 +66,12 @@ def indentizer(cfg):
     bl = None
     if b is not None:
         bl = BulletList(mode=BulletListMode.FIRST_ONLY if b[0] else BulletListMode.ALL, glyph=b[1])
+    if bl is not None:
+        # the caller's BulletList object is configuration: building an Indentizer from it leaves it as it was, and a second
+        # Indentizer built from the same object (the one returned) is the same indentizer
+        before = (bl.mode, bl.glyph)
+        Indentizer(indentor=Indentor.TAB if tab else Indentor.SPACES, spaces_count=n, bullet_list=bl)
+        assert (bl.mode, bl.glyph) == before, f'constructing an Indentizer changed the BulletList it was given: {before!r} became {(bl.mode, bl.glyph)!r}'
     return Indentizer(indentor=Indentor.TAB if tab else Indentor.SPACES, spaces_count=n, bullet_list=bl)
 
 
